@@ -88,6 +88,16 @@ CHECKS = {
             "Lines from the generators of C01 C03 C04 C10 C11 C12 (no positional parameters) are replayed through the entry points; one third also through a live pty session.",
             "oracle is equality with -c, no model; records compared as sorted multisets",
             "DESIGN.md 3 C16"),
+    "C06": ("exploration",
+            "runtime monitoring of the real job-table code under an injected scheduler: child status changes come from a virtual kernel through the cfg-guarded waitpid hook; depth-first enumeration of scheduler choices (exhaustive within a bound, budgeted beyond, random walks deeper) with an online reference model after every poll / foreground-wait return",
+            "Every schedule within (3 events, 2 jobs, 2 processes, 2 launches) [thorough: 4 events] is executed against the real Shell/jobc/signals code; larger bounds are explored depth-first under a budget and by random walks to depth 60; evidence reports states, executions, completed schedules.",
+            "fidelity of the virtual kernel (one pending stop/continue per process, continue overwrites unreported stop) is argued, not proved; fg/bg emulated without tcsetpgrp",
+            "DESIGN.md 3 C06"),
+    "C07": ("exploration",
+            "runtime monitoring of live pty sessions: tcgetpgrp on the pty master, /proc/<pid>/stat of every helper (pids from their own start records), `jobs` lines and job notices; a session model fed by /proc decides each action's postcondition",
+            "Random interactive sessions of 5..25 actions (fg/bg pipelines, Ctrl-Z, Ctrl-C, fg, bg, external STOP/CONT/KILL/TERM, finishing jobs, jobs, plain lines), a quarter of them with the SIGCHLD handler enabled; terminal ownership sampled at every prompt.",
+            "bounded polls for asynchronous effects, expiry = inconclusive; `jobs` asked twice before judging",
+            "DESIGN.md 3 C07"),
 }
 
 NOT_YET = "check not built yet (work in progress); runtime monitoring is applicable and planned, see DESIGN.md section 3"
